@@ -15,6 +15,8 @@ pub fn runs(property: &str, tier: Tier) -> u64 {
         "C12" | "C13" | "C14" | "C33" => (4000, 200000),
         "C15" | "C16" | "C17" | "C36" => (4000, 200000),
         "C37" => (1600, 40000),
+        "C26" => (960, 40000),
+        "C25" => (2400, 100000),
         _ => (160, 3000),
     };
     match tier { Tier::Quick => quick, Tier::Thorough => thorough }
@@ -198,6 +200,57 @@ pub fn describe(property: &str) -> Option<serde_json::Value> {
                 "sequentially consistent interleavings only (no weak memory)",
                 "blocking work inside a task (file I/O, fake rsync child) is \
                  atomic from the scheduler's view",
+            ],
+        }))
+    }
+    if property == "C25" {
+        return Some(json!({
+            "engine": "B (rrdp): real Collector/rrdp::Run::load_repository \
+                       and archive against a simulated RRDP server history",
+            "level": "exploration",
+            "rule": "Each run: one repository over an object universe of 8 \
+                     URIs; per step the server publishes 1-3 serials, rotates \
+                     the session, jumps the serial, prunes deltas or idles; \
+                     the client (fresh Collector = restart) updates against \
+                     the current or a lagging view with one of 23 faults \
+                     (notification status/garbage/truncation/lying 304; \
+                     snapshot status/hash/truncation/wrong serial/wrong \
+                     session/duplicate object; delta status/hash/truncation/\
+                     wrong serial/bad withdraw/bad replace/publish existing; \
+                     delta list gap/duplicate/missing last/mutated hash; \
+                     delta and snapshot both failing), random chunking and \
+                     Content-Length presence, max-delta-count in {1,2,3,100}. \
+                     Oracle (DESIGN appendix B): if repository() hands out an \
+                     RRDP repository, the archive's recorded session/serial \
+                     is the announced one (for 304: the last synced one) and \
+                     its objects equal that version's server snapshot \
+                     exactly. Non-trivial: >=1 fault or lagging view; \
+                     distinct = (fault/server-op counts, outcome probes).",
+            "assumptions": [
+                "a view is self-consistent unless the injected fault says otherwise",
+                "rsync disabled so that 'not updated' means no data is handed out",
+            ],
+        }))
+    }
+    if property == "C26" {
+        return Some(json!({
+            "engine": "E (archive): real utils::archive::Archive on tmpfs \
+                       against a BTreeMap reference model",
+            "level": "exploration",
+            "rule": "Each run: seeded sequence of 5-120 publish / update / \
+                     delete / fetch / fetch_if / reopen (read-only or \
+                     writable) operations over a universe of 3, 6, 24 or 1500 \
+                     names (the large universe forces hash-bucket \
+                     collisions) with data sizes around the page size, the \
+                     header size, free-space split boundaries and 64 kB; \
+                     metadata checks that accept and refuse; after every \
+                     operation verify() must succeed and results must equal \
+                     the map model, objects() is compared with the model. \
+                     Non-trivial: every run; distinct = (universe size, op \
+                     counts, rare-outcome probes, final object count).",
+            "assumptions": [
+                "process restarts are modelled by dropping and reopening the \
+                 archive (no crash in the middle of an operation here; see C24)",
             ],
         }))
     }
